@@ -187,9 +187,9 @@ Section WithRec.
   Definition add_join (acc : option cexp) (t : cexp) : cexp :=
     match acc with
     | None => t
-    | Some a => match strip_neg t with
-                | Some t' => CBin BSub a t'
-                | None => CBin BAdd a t
+    | Some a => match strip_neg t with          (* the term may itself be an unparenthesised sum *)
+                | Some t' => graft BSub a t'
+                | None => graft BAdd a t
                 end
     end.
   Fixpoint add_terms (acc : option cexp) (l : list (expr * number)) : res cexp :=
